@@ -825,6 +825,12 @@ func (f *fragment) unprotectedSetRow(row *Row, rowID uint64) (changed bool, err 
 		f.cache.BulkAdd(rowID, n)
 	}
 
+	// Update row count if they have increased.
+	if rowID > f.maxRowID {
+		f.maxRowID = rowID
+		f.stats.Gauge("rows", float64(f.maxRowID), 1.0)
+	}
+
 	// invalidate rowCache for this row.
 	f.rowCache.Add(rowID, nil)
 
@@ -2062,6 +2068,14 @@ func (f *fragment) importPositions(set, clear []uint64, rowSet map[uint64]struct
 	}
 
 	if len(set) > 0 {
+		// Update row count if they have increased. (AddN reorders set.)
+		for _, pos := range set {
+			if rowID := pos / ShardWidth; rowID > f.maxRowID {
+				f.maxRowID = rowID
+				f.stats.Gauge("rows", float64(f.maxRowID), 1.0)
+			}
+		}
+
 		f.stats.Count("ImportingN", int64(len(set)), 1)
 		changedN, err := f.storage.AddN(set...) // TODO benchmark Add/RemoveN behavior with sorted/unsorted positions
 		if err != nil {
